@@ -25,7 +25,7 @@ func init() {
 		RequiredCounters: []string{"equal_pairs_observed", "unequal_pairs_observed", "zero_element_checks", "decode_roundtrips"},
 		Assumptions:      []string{"shadows are re-synchronised from the library's raw coordinates when an operation deviates from the reference (the group law itself is C08's subject)"},
 		Plan: func(tier string) []Child {
-			out := shards(pick(tier, 10, 14), Child{Flavour: "plain", NCPU: 1})
+			out := shardsVar(pick(tier, 10, 14), Child{Flavour: "plain", NCPU: 1})
 			// the batch form of the encoding on several CPUs with large batches
 			out = append(out, Child{Flavour: "plain", NCPU: 4, Params: map[string]string{"part": "bigbatch"}})
 			out = append(out, Child{Flavour: "plain", NCPU: 8, GOMAXPROCS: 16, Params: map[string]string{"part": "bigbatch"}})
